@@ -104,6 +104,14 @@ func describeJoined(p bpath, upto int, text string) joinDesc {
 					continue
 				}
 				facts := p[start:i].facts()
+				// a separator and the element written by one call (`", " + elem`, or two consecutive writes read as one)
+				if depth >= 1 && d.List != "" && strings.HasPrefix(w, `"`) && (containsStr(facts, "#1>0") || containsStr(facts, "#1!=0")) {
+					if k := indexTop(w, "+"); k > 0 && isStringLit(w[:k]) && strings.Contains(w[k+1:], d.List+"[#1]") {
+						d.Sep = w[:k]
+						d.Elem = strings.ReplaceAll(w[k+1:], d.List+"[#1]", "@")
+						continue
+					}
+				}
 				switch {
 				case depth >= 1 && d.List != "" && strings.Contains(w, d.List+"[#1]"):
 					// a text made from the element the loop stands at (whatever literal it starts with)
